@@ -201,3 +201,55 @@ Theorem C17_schedule_example :
   ev_get_value [102] None demo_ev = Ok 60%Z.
 Proof. exact schedule_example. Qed.
 Print Assumptions C17_schedule_example.
+
+(* ---------------------------------------------------------------------------------------------
+   Links to C12 (QModel.Protocol, the fit machine; proofs: QTheory.Links, module L1).
+   The "run" handed to the callbacks is not an arbitrary list: it is the list of EpochEnd events of a
+   run of the fit machine.  [epoch_ends t] = the epochs carried by the EpochEnd events of trace t, in
+   order; [zrange a m] = [a; a+1; ...; a+m-1]; [epoch_end_run snap log] = the (epoch, network state)
+   pairs of the EpochEnd entries of a log, the state being [snap] of the parameter version logged
+   with the event.  [raised inj (ctrace s) = false]: no callback ever raised the stop flag. *)
+From Coq Require Import Sorted.
+From QModel Require Import Protocol.
+From QTheory Require Links.
+Import Links.L1.
+
+(* for EVERY run of the fit machine (any stop requests, any scheduler, any sizes) the epochs seen at
+   EpochEnd are the consecutive range start .. start+m-1, m <= len(range(start, epochs+1)), with
+   equality when the stop flag is never raised *)
+Theorem C17_fit_epochs_are_consecutive : forall (inj : injector) (sched : bool) (start epochs : Z) (nb ver0 : nat),
+  let s := fit inj sched start epochs nb false ver0 in
+  exists m, m <= num_epochs start epochs /\
+    epoch_ends (ctrace s) = zrange start m /\
+    (raised inj (ctrace s) = false -> m = num_epochs start epochs).
+Proof. exact Links.L1.fit_epoch_range. Qed.
+Print Assumptions C17_fit_epochs_are_consecutive.
+
+(* an evaluator of period p >= 1 driven by the EpochEnd events of ANY fit run records exactly the
+   multiples of p inside the range of epochs that ran, in increasing order *)
+Theorem C17_evaluator_on_fit_run : forall (S V : Type) (p : Z) (m : S -> vals V) (snap : nat -> S)
+    (inj : injector) (sched : bool) (start epochs : Z) (nb ver0 : nat),
+  (1 <= p)%Z ->
+  let s := fit inj sched start epochs nb false ver0 in
+  let rec := ev_epochs (ev_run m (ev_new p) (epoch_end_run snap (log s))) in
+  exists k, k <= num_epochs start epochs /\
+    (raised inj (ctrace s) = false -> k = num_epochs start epochs) /\
+    rec = filter (dividesb p) (zrange start k) /\
+    StronglySorted Z.lt rec /\
+    (forall e, In e rec <-> (start <= e < start + Z.of_nat k)%Z /\ (p | e)%Z).
+Proof. exact @Links.L1.evaluator_on_fit_run. Qed.
+Print Assumptions C17_evaluator_on_fit_run.
+
+(* the epochs of a fit run are pairwise distinct, so the ModelSaver file theorem (C17_saver_files)
+   holds for every fit run with no hypothesis left *)
+Theorem C17_saver_on_fit_run : forall (S P M : Type) (params : S -> P) (empty : M) (sv : saver S M) (s0 : S)
+    (snap : nat -> S) (inj : injector) (sched : bool) (start epochs : Z) (nb ver0 : nat),
+  let run := epoch_end_run snap (log (fit inj sched start epochs nb false ver0)) in
+  let W := sv_fit params empty sv s0 run in
+  NoDup (map fst run) /\
+  (forall e s, In (e, s) run -> fires (sv_period sv) e = true ->
+     store_get (FEpoch e) W = Some (sv_save params empty sv s e)) /\
+  (forall e, store_get (FEpoch e) W <> None -> fires (sv_period sv) e = true /\ In e (map fst run)) /\
+  store_get FInitial W = (if sv_save_initial sv then Some (sv_save params empty sv s0 0%Z) else None).
+Proof. exact @Links.L1.saver_on_fit_run. Qed.
+Print Assumptions C17_saver_on_fit_run.
